@@ -99,7 +99,7 @@ def client_requests(rng, ci, ident, version, shared, hist):
     n = rng.randrange(3, 8)
     tag = 'h%d-c%d' % (hist, ci)
     for j in range(n):
-        k = rng.randrange(14)
+        k = rng.randrange(17)
         sh = rng.choice(shared)
         name = '%s-%d' % (tag, j)
         if k == 0:
@@ -129,6 +129,12 @@ def client_requests(rng, ci, ident, version, shared, hist):
             ops = [op_locate([rig.attr(A.SENSITIVE, False)])]
         elif k == 12 and version >= (2, 0):
             ops = [op_set_attribute(sh, A.SENSITIVE, True)]
+        elif k == 14:
+            ops = [op_query((E.QueryFunction.QUERY_OPERATIONS, E.QueryFunction.QUERY_SERVER_INFORMATION))]
+        elif k == 15 and version >= (1, 1):
+            ops = [op_discover_versions()]
+        elif k == 16:
+            ops = [op_query(), op_get_attributes(sh)]
         else:
             ops = [op_register('secret', secret_data(b'pw-%d-%d' % (ci, j)), common_attrs(names=[name])), op_get(None)]
         try:
